@@ -58,23 +58,25 @@ func (iso *ISO3k3y) Read(b []byte) (int, error) {
 	readStart := iso.offset
 
 	read, err := iso.privateFile.Read(b)
-	if err != nil || read == 0 {
+	if read == 0 {
 		return read, err
 	}
 
+	// data may be returned together with an error (i.e. io.EOF)
 	iso.offset += sizeBytes(read)
 	iso.clear3k3yData(readStart, b[:read])
-	return read, nil
+	return read, err
 }
 
 func (iso *ISO3k3y) ReadAt(b []byte, off int64) (int, error) {
 	read, err := iso.privateFile.ReadAt(b, off)
-	if err != nil || read == 0 {
+	if read == 0 {
 		return read, err
 	}
 
+	// data may be returned together with an error (i.e. io.EOF)
 	iso.clear3k3yData(sizeBytes(off), b[:read])
-	return read, nil
+	return read, err
 }
 
 func (*ISO3k3y) clear3k3yData(start sizeBytes, data []byte) {
